@@ -33,10 +33,10 @@ inductive Reach (p : Prog) (n : Nat) : St → Prop where
 
 /-- a counter tracks an annotation: the threads whose row carries the annotation are exactly a duplicate-free
 list whose length is the counter. -/
-def Tracks (A : Nat → Bool) (pc : Tid → Nat) (k : Nat) : Prop :=
+def Tracks {L : Type} (A : L → Bool) (pc : Tid → L) (k : Nat) : Prop :=
   ∃ hs : List Tid, hs.Nodup ∧ (∀ t, A (pc t) = true ↔ t ∈ hs) ∧ hs.length = k
 
-theorem tracks_keep {A : Nat → Bool} {pc : Tid → Nat} {k : Nat} (h : Tracks A pc k) (t : Tid) (q : Nat)
+theorem tracks_keep {L : Type} {A : L → Bool} {pc : Tid → L} {k : Nat} (h : Tracks A pc k) (t : Tid) (q : L)
     (hq : A q = A (pc t)) : Tracks A (upd pc t q) k := by
   obtain ⟨hs, hnd, hm, hl⟩ := h
   refine ⟨hs, hnd, ?_, hl⟩
@@ -45,7 +45,7 @@ theorem tracks_keep {A : Nat → Bool} {pc : Tid → Nat} {k : Nat} (h : Tracks 
   · subst hu; simp only [upd, if_true]; rw [hq]; exact hm u
   · simp only [upd, hu, if_false]; exact hm u
 
-theorem tracks_gain {A : Nat → Bool} {pc : Tid → Nat} {k : Nat} (h : Tracks A pc k) (t : Tid) (q : Nat)
+theorem tracks_gain {L : Type} {A : L → Bool} {pc : Tid → L} {k : Nat} (h : Tracks A pc k) (t : Tid) (q : L)
     (h0 : A (pc t) = false) (hq : A q = true) : Tracks A (upd pc t q) (k + 1) := by
   obtain ⟨hs, hnd, hm, hl⟩ := h
   have htn : t ∉ hs := by
@@ -58,7 +58,7 @@ theorem tracks_gain {A : Nat → Bool} {pc : Tid → Nat} {k : Nat} (h : Tracks 
   · subst hu; simp [upd, hq]
   · simp only [upd, hu, if_false, List.mem_cons, false_or]; exact hm u
 
-theorem tracks_lose {A : Nat → Bool} {pc : Tid → Nat} {k : Nat} (h : Tracks A pc k) (t : Tid) (q : Nat)
+theorem tracks_lose {L : Type} {A : L → Bool} {pc : Tid → L} {k : Nat} (h : Tracks A pc k) (t : Tid) (q : L)
     (h1 : A (pc t) = true) (hq : A q = false) : 0 < k ∧ Tracks A (upd pc t q) (k - 1) := by
   obtain ⟨hs, hnd, hm, hl⟩ := h
   have hin : t ∈ hs := (hm t).mp h1
@@ -74,20 +74,20 @@ theorem tracks_lose {A : Nat → Bool} {pc : Tid → Nat} {k : Nat} (h : Tracks 
   · simp only [upd, hu, if_false]
     rw [List.mem_erase_of_ne hu]; exact hm u
 
-theorem tracks_pos {A : Nat → Bool} {pc : Tid → Nat} {k : Nat} (h : Tracks A pc k) (t : Tid)
+theorem tracks_pos {L : Type} {A : L → Bool} {pc : Tid → L} {k : Nat} (h : Tracks A pc k) (t : Tid)
     (h1 : A (pc t) = true) : 0 < k := by
   obtain ⟨hs, _, hm, hl⟩ := h
   have hin : t ∈ hs := (hm t).mp h1
   have := List.length_pos_of_mem hin
   omega
 
-theorem tracks_bound {A : Nat → Bool} {pc : Tid → Nat} {k : Nat} (h : Tracks A pc k) (l : List Tid)
+theorem tracks_bound {L : Type} {A : L → Bool} {pc : Tid → L} {k : Nat} (h : Tracks A pc k) (l : List Tid)
     (hl : l.Nodup) (hA : ∀ t ∈ l, A (pc t) = true) : l.length ≤ k := by
   obtain ⟨hs, _, hm, hlen⟩ := h
   rw [← hlen]
   exact nodup_subset_length hl (fun x hx => (hm x).mp (hA x hx))
 
-theorem tracks_zero {A : Nat → Bool} {pc : Tid → Nat} {k : Nat} (h : Tracks A pc k)
+theorem tracks_zero {L : Type} {A : L → Bool} {pc : Tid → L} {k : Nat} (h : Tracks A pc k)
     (hA : ∀ t, A (pc t) = false) : k = 0 := by
   obtain ⟨hs, _, hm, hlen⟩ := h
   cases hs with
@@ -406,6 +406,41 @@ theorem holds_imp_inWg {p : Prog} (hp : holdsWithinWg p = true) (q : Nat) (h : H
     · rw [h] at h'; cases h'
     · exact h'
   next => cases h
+
+/-! ### runs in which only the first `k` threads ever act (a loop that makes exactly `k` calls) -/
+
+inductive ReachK (p : Prog) (n k : Nat) : St → Prop where
+  | init : ReachK p n k (St.init n)
+  | step {s s' : St} (t : Tid) (c : Bool) : t < k → ReachK p n k s → step p s t c = some s' → ReachK p n k s'
+
+theorem reachK_reach {p : Prog} {n k : Nat} {s : St} (h : ReachK p n k s) : Reach p n s := by
+  induction h with
+  | init => exact Reach.init
+  | step t c _ _ hs ih => exact Reach.step t c ih hs
+
+/-- a step of thread `t` moves only `t`. -/
+theorem step_pc_other {p : Prog} {s s' : St} {t : Tid} {c : Bool} (hs : step p s t c = some s') (u : Tid)
+    (hu : u ≠ t) : s'.pc u = s.pc u := by
+  unfold step at hs
+  split at hs
+  · unfold exec at hs
+    split at hs <;> (try split at hs) <;> first
+      | (injection hs with hs; subst hs; simp [upd, hu])
+      | cases hs
+  · cases hs
+
+theorem reachK_untouched {p : Prog} {n k : Nat} {s : St} (h : ReachK p n k s) (u : Tid) (hu : k ≤ u) :
+    s.pc u = 0 := by
+  induction h with
+  | init => rfl
+  | step t c ht _ hs ih =>
+    have hne : u ≠ t := by
+      intro h; subst h; exact absurd ht (Nat.not_lt.mpr hu)
+    rw [step_pc_other hs u hne]; exact ih
+
+theorem nodup_lt_length {l : List Tid} {k : Nat} (hl : l.Nodup) (hlt : ∀ t ∈ l, t < k) : l.length ≤ k := by
+  have := nodup_subset_length (hs := List.range k) hl (fun x hx => List.mem_range.mpr (hlt x hx))
+  simpa using this
 
 /-- the cap, in the form used by the monitor-soundness proof. -/
 theorem sem_cap_aux {p : Prog} (hp : okProg p = true) {n : Nat} {s : St} (h : Reach p n s)
